@@ -170,6 +170,37 @@ func judgeRequests(st *stats, reqs []recorded, base parts, plain bool, kind stri
 	return hits
 }
 
+// formsAgree: the tag, digest and tag@digest forms give the canonical
+// references; every other accepted form naming the same tag / digest must
+// return exactly the same registry.Reference.
+func formsAgree(st *stats, repo *remote.Repository, tag, dg string, others []string) {
+	byTag, errT := repo.ParseReference(tag)
+	byDg, errD := repo.ParseReference(dg)
+	byBoth, errB := repo.ParseReference(tag + "@" + dg)
+	w := map[string]any{"base": repo.Reference.String(), "tag": tag, "digest": dg}
+	if errT != nil || errD != nil || errB != nil {
+		return // reject-valid is reported by evalRepo
+	}
+	if byBoth != byDg {
+		st.violate("repo:forms-disagree", fmt.Sprintf("Repository(%s): tag@digest resolves to %+v, digest to %+v", repo.Reference, byBoth, byDg), w)
+	}
+	for _, s := range others {
+		got, err := repo.ParseReference(s)
+		if err != nil {
+			continue
+		}
+		want := byDg
+		if got.Reference == tag {
+			want = byTag
+		}
+		if got != want {
+			st.violate("repo:forms-disagree", fmt.Sprintf("Repository(%s).ParseReference(%s) = %+v, but the short form resolves to %+v", repo.Reference, show(s), got, want),
+				map[string]any{"base": repo.Reference.String(), "input": s, "returned": got, "short_form": want})
+		}
+	}
+	st.formsChecked++
+}
+
 func toResult(st *stats, res *worker.Result) {
 	for _, v := range st.viols {
 		res.Violate(v.Key, v.What, v.Witness)
@@ -180,6 +211,7 @@ func toResult(st *stats, res *worker.Result) {
 	res.Count("repository_parse_evaluations", st.repoEvals)
 	res.Count("repository_parse_judged", st.repoJudged)
 	res.Count("repository_parse_accepted", st.repoAccepted)
+	res.Count("form_agreement_checks", st.formsChecked)
 	res.Evals = int(st.repoEvals)
 }
 
@@ -262,6 +294,25 @@ func runCase(phase string, i int) worker.Result {
 		inputs = append(inputs, mutate(rng, s))
 		inputs = append(inputs, mutate(rng, mutate(rng, s)))
 	}
+
+	// Docker Hub aliases: docker.io is contacted at registry-1.docker.io, but
+	// they (and index.docker.io) are different registries as far as references
+	// go: a fully qualified reference naming another alias must be rejected.
+	hubNames := []string{"docker.io", "registry-1.docker.io", "index.docker.io"}
+	var aliasInputs []string
+	if strings.HasSuffix(base.Registry, "docker.io") {
+		for _, h := range hubNames {
+			if h != base.Registry {
+				a := h + "/" + base.Repository
+				aliasInputs = append(aliasInputs, a+":"+tag, a+"@"+dg, a+":"+tag+"@"+dg)
+			}
+		}
+		inputs = append(inputs, aliasInputs...)
+		res.Count("hub_alias_inputs", int64(len(aliasInputs)))
+	}
+	// whatever form is accepted must resolve to the very reference the tag /
+	// digest / tag@digest forms resolve to (Registry field included)
+	formsAgree(st, repo, tag, dg, append([]string{fq + ":" + tag, fq + "@" + dg, fq + ":" + tag + "@" + dg, ":" + tag + "@" + dg}, aliasInputs...))
 
 	switch phase {
 	case "repo":
